@@ -2,7 +2,7 @@
 //! walk arrays and objects by pushing, per element, a child manifestation state, the thunk to force, and the frame
 //! bookkeeping states. The frame limit only bounds a recursion if the CHILD state runs inside the counted frame.
 //! Each harness runs one real manifester step (`do_manifest_json`, `do_manifest_yaml_doc`, `do_manifest_python`,
-//! `do_manifest_toml_value`) on a two-element array or a two-field object and checks, for every child state the step
+//! `do_manifest_toml_value`) on a one-element array or a one-field object and checks, for every child state the step
 //! scheduled, the trace length at which it will run.
 use super::*;
 use super::c08::{one_layer_object, pending_array, pending_thunk};
@@ -53,20 +53,18 @@ fn fields_object<'p>(
     arena: &'p Arena,
     program: &Program<'p>,
     env: &GcView<ThunkEnv<'p>>,
-) -> (GcView<ObjectData<'p>>, [GcView<ThunkData<'p>>; 2]) {
+) -> (GcView<ObjectData<'p>>, [GcView<ThunkData<'p>>; 1]) {
     let a = program.str_interner.intern(arena, "a");
-    let b = program.str_interner.intern(arena, "b");
-    let thunks: [GcView<ThunkData<'p>>; 2] = core::array::from_fn(|_| pending_thunk(arena, env));
-    let d = ast::Visibility::Default;
-    (one_layer_object([a, b], [d, d], &thunks), thunks)
+    let thunks: [GcView<ThunkData<'p>>; 1] = core::array::from_fn(|_| pending_thunk(arena, env));
+    (one_layer_object([a], [ast::Visibility::Default], &thunks), thunks)
 }
 
-/// which: 0 json, 1 yaml, 2 python, 3 toml value (inline); object: false = two-element array, true = two-field object
+/// which: 0 json, 1 yaml, 2 python, 3 toml value (inline); object: false = one-element array, true = one-field object
 fn manifest_step_case(which: u8, object: bool) {
     let arena = Arena::new();
     let mut program = bare_program(&arena);
     let env = GcView::kani_unmanaged(ThunkEnv::new());
-    let (arr, _items) = pending_array::<2>(&arena, &env);
+    let (arr, _items) = pending_array::<1>(&arena, &env);
     let (obj, _fields) = fields_object(&arena, &program, &env);
     let len: usize = kani::any();
     kani::assume(len >= 1 && len < usize::MAX);
@@ -82,7 +80,7 @@ fn manifest_step_case(which: u8, object: bool) {
     };
     assert!(r.is_ok(), "arrays and objects can be manifested");
     assert!(ev.stack_trace_len == len, "the step itself leaves the trace length unchanged (each frame it pushed is suspended again)");
-    assert!(children_run_inside_frames(&ev, 2), "each of the two elements is forced and manifested INSIDE a counted frame of its own; frames are balanced");
+    assert!(children_run_inside_frames(&ev, 1), "the element is forced and manifested INSIDE a counted frame of its own; frames are balanced");
     assert!(ev.value_stack.is_empty());
     core::mem::forget(r);
     core::mem::forget(ev);
@@ -96,6 +94,10 @@ macro_rules! manifest_frames_harness {
         #[kani::proof]
         #[kani::unwind(8)]
         #[kani::stub(crate::program::eval::Evaluator::report_error, crate::program::eval::Evaluator::kstub_report_error)]
+        #[kani::stub(crate::program::data::ObjectData::get_fields_order, crate::program::data::ObjectData::kstub_get_fields_order_cached)]
+        #[kani::stub(alloc::string::String::push, crate::kani_support::stub_string_push_nothing)]
+        #[kani::stub(alloc::string::String::push_str, crate::kani_support::stub_string_push_str_nothing)]
+        #[kani::stub(str::repeat, crate::kani_support::stub_str_repeat_empty)]
         fn $name() {
             manifest_step_case($which, false);
             kani::cover!(true, "array step");
@@ -106,27 +108,27 @@ macro_rules! manifest_frames_harness {
     };
 }
 
-// @harness id=c10_manifest_frames_json props=C10,C05 tier=quick cap=1500 fs=64
-// @desc one real step of do_manifest_json (std.toString, std.manifestJson*, string coercion) on a two-element array and on a two-field object of unevaluated elements, from ANY trace length: every element's thunk is forced and its child ManifestJson state runs at trace length + 1, inside a counted frame of its own, and the frames are balanced - so nesting depth of a manifested value is bounded by the frame limit
-// @bound arrays / one-layer objects of 2 elements (field order cached); default to-string format, depth 0
+// @harness id=c10_manifest_frames_json props=C10 tier=quick cap=1500 unwindset=do_manifest_json@all:2
+// @desc one real step of do_manifest_json (std.toString, std.manifestJson*, string coercion) on a one-element array and on a one-field object with an unevaluated element (the per-element code is the loop body; more elements repeat it), from ANY trace length: every element's thunk is forced and its child ManifestJson state runs at trace length + 1, inside a counted frame of its own, and the frames are balanced - so nesting depth of a manifested value is bounded by the frame limit
+// @bound arrays / one-layer objects of 1 element; every loop of the manifester unwound to 2 iterations (unwinding assertions on) (get_fields_order stubbed by 'return the cached list'); default to-string format, depth 0
 // @funcs Evaluator::do_manifest_json, Evaluator::push_trace_item, Evaluator::delay_trace_item, ObjectData::get_visible_fields_order, Program::find_object_field_thunk
-// @out the text produced (C05); other formats of the JSON manifester (indentation strings)
+// @out the text produced (String::push / push_str / str::repeat are stubbed by no-ops: only the scheduling is decided); other formats of the JSON manifester
 manifest_frames_harness!(c10_manifest_frames_json, 0);
 
-// @harness id=c10_manifest_frames_yaml props=C10,C05 tier=quick cap=1500 fs=64
+// @harness id=c10_manifest_frames_yaml props=C10 tier=quick cap=1500 unwindset=do_manifest_yaml_doc@all:2
 // @desc as c10_manifest_frames_json for do_manifest_yaml_doc (std.manifestYamlDoc / Stream, -y output)
-// @bound arrays / one-layer objects of 2 elements; top level, unquoted keys
+// @bound arrays / one-layer objects of 1 element; every loop of the manifester unwound to 2 iterations (unwinding assertions on); top level, unquoted keys
 // @funcs Evaluator::do_manifest_yaml_doc, Evaluator::push_trace_item, Evaluator::delay_trace_item
 manifest_frames_harness!(c10_manifest_frames_yaml, 1);
 
-// @harness id=c10_manifest_frames_python props=C10,C05 tier=quick cap=1500 fs=64
+// @harness id=c10_manifest_frames_python props=C10 tier=quick cap=1500 unwindset=do_manifest_python@all:2
 // @desc as c10_manifest_frames_json for do_manifest_python (std.manifestPython / manifestPythonVars)
-// @bound arrays / one-layer objects of 2 elements
+// @bound arrays / one-layer objects of 1 element; every loop of the manifester unwound to 2 iterations (unwinding assertions on)
 // @funcs Evaluator::do_manifest_python, Evaluator::push_trace_item, Evaluator::delay_trace_item
 manifest_frames_harness!(c10_manifest_frames_python, 2);
 
-// @harness id=c10_manifest_frames_toml props=C10,C05 tier=quick cap=1500 fs=64
+// @harness id=c10_manifest_frames_toml props=C10 tier=quick cap=1500 unwindset=do_manifest_toml_value@all:2
 // @desc as c10_manifest_frames_json for do_manifest_toml_value (inline arrays and tables of std.manifestToml*)
-// @bound arrays / one-layer objects of 2 elements; depth 0, not inside an inline table
+// @bound arrays / one-layer objects of 1 element; every loop of the manifester unwound to 2 iterations (unwinding assertions on); depth 0, not inside an inline table
 // @funcs Evaluator::do_manifest_toml_value, Evaluator::push_trace_item, Evaluator::delay_trace_item
 manifest_frames_harness!(c10_manifest_frames_toml, 3);
